@@ -1069,6 +1069,10 @@ theorem orient_post_simple (d : Direction) (p : Poly) (he : ringSimple p.ext = t
     (fun h hh => by simp [SM.isClosed, Geo.Proofs.C12.closed_of_simple (hi h hh)])
     (windingOrder_reverse_simple _ he) (fun h hh => windingOrder_reverse_simple _ (hi h hh))
 
+example : windingOrder (orientPoly .reversed
+      ⟨[⟨0, 0⟩, ⟨0, 0⟩, ⟨0, 9⟩, ⟨9, 9⟩, ⟨9, 0⟩, ⟨0, 0⟩], [[⟨1, 1⟩, ⟨5, 2⟩, ⟨2, 5⟩, ⟨1, 1⟩]]⟩).ext ≠ some .ccw :=
+  (orient_post_simple .reversed _ (by decide +kernel) (by decide +kernel)).1
+
 /-- [T] `orient_idem` for polygons whose rings are simple (the full statement of `orient_idem_partial` on the
 property's domain). -/
 theorem orient_idem_simple (d : Direction) (p : Poly) (he : ringSimple p.ext = true)
@@ -1201,13 +1205,16 @@ example : windingOrder (orientPoly .default
       ⟨[⟨0, 0⟩, ⟨0, 9⟩, ⟨9, 9⟩, ⟨9, 0⟩, ⟨0, 0⟩], [[⟨1, 1⟩, ⟨5, 2⟩, ⟨2, 5⟩, ⟨1, 1⟩]]⟩).ext = some .ccw :=
   (orient_exact_simple .default _ (by decide +kernel) (by decide +kernel)).1
 
-/-- [T] the signed area of a polygon with a simple exterior is positive exactly when the exterior is
-counter-clockwise … -/
+/-- [T] the area of a simple ring is positive exactly when `winding_order` says counter-clockwise. -/
 theorem ringArea_pos_iff_ccw_simple (r : List Pt) (h : ringSimple r = true) :
     0 < ringArea r ↔ windingOrder r = some .ccw := by
   rw [(windingOrder_eq_sign_area_simple r h).1]
   unfold ringArea
   constructor <;> intro h' <;> linarith
+
+example : 0 < ringArea [⟨0, 0⟩, ⟨4, 0⟩, ⟨4, 4⟩, ⟨2, 1⟩, ⟨0, 4⟩, ⟨0, 0⟩] := by
+  rw [ringArea_pos_iff_ccw_simple _ (by decide +kernel)]
+  decide +kernel
 
 /-- [T] `polygonArea_pos_iff_ccw`: **`signed_area` of a polygon is positive exactly when its exterior is
 counter-clockwise** (and negative exactly when it is clockwise), for a simple exterior ring not outweighed by the
